@@ -816,8 +816,15 @@ fn report(rep: &mut Report, rt: &tokio::runtime::Runtime, prop: &str, sc: &Scena
     match res {
         Err(p) => {
             rep.case(&sc.to_json().to_string(), true);
-            // neither statement speaks about panics; a panic hides what the monitors would have seen
+            // A panic inside litep2p under a history the scripted world can legally produce ends the
+            // protocol's event stream (nothing after it is delivered) and hides what the monitors
+            // would have seen; the unchanged tree never panics here (debug assertions on), so it is
+            // reported. Typical cause: the debug assertion "connection closed to a non-existent
+            // peer", i.e. the service had already reported the peer closed too early.
             rep.hit("panic_outside_property");
+            if panic_site(&p).starts_with("src/") {
+                rep.violation(format!("{prop}/panic/{}", panic_site(&p)), p.clone(), sc.to_json());
+            }
             rep.extra.entry("panic_sites".into()).or_insert_with(|| json!([])).as_array_mut().map(|a| {
                 let s = json!(panic_site(&p));
                 if !a.contains(&s) && a.len() < 10 {
@@ -987,6 +994,43 @@ pub fn run(ctx: &Ctx, prop: &'static str) -> Report {
     if prop == "C08" {
         directed_close_order(&mut rep, prop, rng.u64());
     }
+    // directed (real time): two overlapping connections, one of them kept only by another
+    // protocol's substream across a keep-alive expiry, then (C08) the primary closes first and the
+    // peer is still used over the survivor / (C09) late activity on the survivor re-arms its timer
+    {
+        let t = 60u64;
+        let directed: Vec<Vec<Act>> = if prop == "C08" {
+            vec![
+                // (both connections are kept across the expiry by substreams of protocol 1)
+                vec![Act::ConnIn(0), Act::ConnIn(0), Act::InSub(0, 1), Act::InSub(1, 1), Act::Advance(t + 20), Act::CloseConn(0), Act::InSub(0, 0), Act::OpenSub(0, 0), Act::Answer(0, true), Act::CloseConn(0)],
+                vec![Act::ConnIn(0), Act::ConnIn(0), Act::InSub(0, 1), Act::InSub(1, 101), Act::Advance(t + 20), Act::CloseConn(0), Act::OpenSub(0, 0), Act::Answer(0, false), Act::InSub(0, 0), Act::CloseConn(0)],
+                vec![Act::ConnIn(0), Act::ConnIn(0), Act::InSub(0, 1), Act::InSub(1, 1), Act::Advance(t + 20), Act::CloseConn(1), Act::OpenSub(0, 0), Act::Answer(0, true), Act::CloseConn(0)],
+            ]
+        } else {
+            vec![
+                // both connections survive the expiry through substreams of protocol 1 (so the second
+                // one stays the secondary); protocol 0 then gets an inbound substream on the secondary
+                // and everything on it is dropped at once: the activity re-armed the timer
+                vec![Act::ConnIn(0), Act::ConnIn(0), Act::InSub(0, 1), Act::InSub(1, 1), Act::Advance(t + 25), Act::InSub(1, 0), Act::DropSub(2), Act::DropSub(1), Act::Advance(t / 2)],
+                vec![Act::ConnIn(0), Act::ConnIn(0), Act::InSub(0, 1), Act::InSub(1, 1), Act::Advance(t + 25), Act::InSub(1, 100), Act::DropSub(1), Act::Advance(t / 3), Act::DropSub(1), Act::Advance(t / 2)],
+            ]
+        };
+        for (i, acts) in directed.into_iter().enumerate() {
+            if (i + ctx.shard) % 2 != 0 {
+                continue;
+            }
+            let sc = Scenario { seed: rng.u64(), timeout_ms: t, protos: vec![true, true], npeers: 1, acts, realtime: true };
+            let r = execute(&rt, &sc);
+            if let Ok(o) = &r {
+                if o.applied == sc.acts.len() {
+                    rep.hit("directed_overlap_scenarios_fully_applied");
+                } else {
+                    rep.hit("directed_overlap_scenarios_partly_applied");
+                }
+            }
+            report(&mut rep, &rt, prop, &sc, r);
+        }
+    }
     // family 1 (C08 only): virtual time, bulk — grammar of connection/substream events without
     // keep-alive expiry; family 2: real time with short keep-alive timeouts (downgrades, C09).
     let n_virtual = if prop == "C08" { ctx.pick(24_000, 400_000) / ctx.nshards } else { 0 };
@@ -1051,6 +1095,7 @@ pub fn run(ctx: &Ctx, prop: &'static str) -> Report {
         let _ = p;
         rep.hit("stray_panics");
     }
+    rep.floor("directed_overlap_scenarios_fully_applied", 2);
     rep.floor("connections_established", 500);
     rep.floor("svc_established_events", 500);
     rep.floor("svc_closed_events", 300);
